@@ -378,6 +378,12 @@ func TestMarshalerSweep(t *testing.T) {
 	}
 	shard, shards := shardOf()
 	paths := marshSweepPaths()
+	var pathsNoMap []PathSpec
+	for _, p := range paths {
+		if p.K != "confmap" || p.V != "marshal-map" {
+			pathsNoMap = append(pathsNoMap, p)
+		}
+	}
 	held := marshHeld()
 	type tp struct {
 		name string
@@ -395,12 +401,12 @@ func TestMarshalerSweep(t *testing.T) {
 	// Pairwise coverage instead of the full product (one script costs ~15 ms:
 	// every custom Marshal builds and copies a Conf of its own):
 	//   every style x every held value       in a tagged field (ascii) and in a slice (nasty)
-	//   every style x every placement        holding an opaque value and a map of them (ascii, marker)
+	//   every style x every placement        holding an opaque value and a map of them (ascii; marker for five placements)
 	//   every held value x every placement   for the style that hands over Go values (ascii)
 	//   every style x every secret kind      in a tagged field, holding an opaque value
 	type combo struct {
 		ty, held, pl int
-		kind       string
+		kind         string
 	}
 	pls := marshPlacements()
 	plIdx := map[string]int{}
@@ -420,9 +426,11 @@ func TestMarshalerSweep(t *testing.T) {
 			add(combo{ti, hi, plIdx["field"], "ascii"})
 			add(combo{ti, hi, plIdx["slice"], "nasty"})
 		}
-		for pi := range pls {
+		for pi, pl := range pls {
 			add(combo{ti, 0, pi, "ascii"})
-			add(combo{ti, 0, pi, "marker"})
+			if pl.name == "field" || pl.name == "squashed-field" || pl.name == "slice" || pl.name == "in-marshaller" || pl.name == "any-field" {
+				add(combo{ti, 0, pi, "marker"})
+			}
 		}
 		for _, kind := range marshSweepKinds {
 			add(combo{ti, 0, plIdx["field"], kind})
@@ -448,6 +456,11 @@ func TestMarshalerSweep(t *testing.T) {
 		s := Script{Shape: pl.mk(ty.mk(h.mk(), second.mk()))}
 		s.S1, s.S2 = sweepSecrets(kind, slots(s.Shape))
 		s.Paths = paths
+		if pl.name != "root" && pl.name != "field" && pl.name != "squashed-field" {
+			// the top-level map[string]any variant holds the value six times (the
+			// costliest path): run it for three placements only
+			s.Paths = pathsNoMap
+		}
 		if !s.valid() {
 			cMarshSweep.Inconclusive("marshaler-sweep built a malformed script for %s/%s/%s/%s", ty.name, h.name, pl.name, kind)
 			t.Fatalf("malformed script %s/%s/%s/%s", ty.name, h.name, pl.name, kind)
@@ -465,6 +478,6 @@ func TestMarshalerSweep(t *testing.T) {
 			cMarshSweep.Sample(map[string]any{"style": ty.name, "holds": h.name, "placement": pl.name, "secrets": kind, "shape": s.Shape.info().sig})
 		}
 	}
-	cMarshSweep.Note("marshaler-sweep: %d scripts covering pairwise %d marshalling styles x %d held values x %d placements (+ %d secret kinds), %d paths each (4 confmap variants read by value)",
+	cMarshSweep.Note("marshaler-sweep: %d scripts covering pairwise %d marshalling styles x %d held values x %d placements (+ %d secret kinds), %d paths each (4 confmap variants read by value; the top-level-map variant for 3 placements only)",
 		len(combos), len(types), len(held), len(pls), len(marshSweepKinds), len(paths))
 }
